@@ -1006,6 +1006,12 @@ func hashRegistration(r Registration, hh ssz.HashWalker) error {
 	indx := hh.Index()
 
 	// Field (0) 'FeeRecipient'
+	// A registration is either empty or carries a 20 byte address: PutBytes pads to a full chunk, so any
+	// other length would hash like the same bytes with zeros appended or removed.
+	if len(r.FeeRecipient) != 0 && len(r.FeeRecipient) != addressLen {
+		return errors.New("invalid fee recipient length", z.Int("l", len(r.FeeRecipient)))
+	}
+
 	hh.PutBytes(r.FeeRecipient)
 
 	// Field (1) 'GasLimit' uint64
